@@ -1,6 +1,7 @@
 import KonstVerif.Lemmas.LitDecode
 import KonstVerif.Model.ParserMethod
 import KonstVerif.Spec.ParserMethod
+import KonstVerif.Lemmas.Utf8
 /-
   C18 — `parser_method!` behaves like the equivalent chain of Parser method calls, and the bytes it
   matches for a literal are the bytes rustc gives that literal.
@@ -330,6 +331,57 @@ theorem default_leaves_parser_unchanged (arms : Arms) (p : PState) :
   intro h
   unfold findSkip
   rw [findLoop_eq_spec, h]
+
+/-! ### literals are valid UTF-8, so `Parser::skip` / `skip_back` never round -/
+
+open Konst.Spec.Utf8 in
+/-- a (non-empty) valid literal matched byte-wise at offset `i` of a valid remainder starts and ends
+    on char boundaries of the remainder; an empty literal at offset 0 or at the end trivially so -/
+theorem cut_on_boundary (cs ls : List Nat) (hcs : ∀ c ∈ cs, isScalar c = true) (i : Nat)
+    (hm : encs ls <+: (encs cs).drop i) (hne : ls ≠ [] ∨ i = 0 ∨ i = (encs cs).length) :
+    Konst.Utf8.isCharBoundaryBytes (encs cs) i = true ∧
+    Konst.Utf8.isCharBoundaryBytes (encs cs) (i + (encs ls).length) = true := by
+  have hb := Konst.Lemmas.Utf8.boundary_iff cs hcs
+  unfold Konst.Utf8.isCharBoundary at hb
+  by_cases hl : ls = []
+  · subst hl
+    have h0 : (encs ([] : List Nat)).length = 0 := rfl
+    rw [h0, Nat.add_zero]
+    rcases hne with h | h | h
+    · exact absurd rfl h
+    · subst h; exact ⟨(hb 0).mpr (Konst.Lemmas.Utf8.boundary_zero cs), (hb 0).mpr (Konst.Lemmas.Utf8.boundary_zero cs)⟩
+    · subst h; exact ⟨(hb _).mpr (Konst.Lemmas.Utf8.boundary_len cs), (hb _).mpr (Konst.Lemmas.Utf8.boundary_len cs)⟩
+  · obtain ⟨h1, h2⟩ := Konst.Lemmas.Utf8.match_on_boundaries cs ls hl i hm
+    exact ⟨(hb i).mpr h1, (hb _).mpr h2⟩
+
+open Konst.Spec.Utf8 in
+/-- strip_prefix form on valid input: the parser advances by exactly the matched literal
+    (start offset + |literal|, end offset unchanged, remainder = the rest) -/
+theorem strip_prefix_exact (arms : Arms) (p : PState) (cs : List Nat)
+    (hcs : ∀ c ∈ cs, isScalar c = true) (hp : p.rem = encs cs)
+    (harms : ∀ a ∈ arms, ∃ ls, a.2 = encs ls) :
+    stripPrefix arms p =
+      match firstPrefix arms p.rem with
+      | some a => (some a.1, ⟨p.start + a.2.length, p.rem.drop a.2.length⟩)
+      | none => (none, p) := by
+  unfold stripPrefix
+  rw [firstArm_start, stripPrefixSpec]
+  cases h : firstPrefix arms p.rem with
+  | none => rfl
+  | some a =>
+    simp only [Option.map_some]
+    have hmem := List.mem_of_find?_eq_some h
+    have hpre : a.2 <+: p.rem := by
+      have := List.find?_some h
+      simpa [List.isPrefixOf_iff_prefix] using this
+    obtain ⟨ls, hls⟩ := harms a hmem
+    have hlen : a.2.length ≤ p.rem.length := hpre.length_le
+    unfold setStart
+    have hn : p.rem.length - (p.rem.drop a.2.length).length = a.2.length := by
+      simp only [List.length_drop]; omega
+    rw [hn]
+    have hbd := cut_on_boundary cs ls hcs 0 (by rw [List.drop_zero, ← hp, ← hls]; exact hpre) (Or.inr (Or.inl rfl))
+    rw [skip_exact p a.2.length hlen (by rw [hp, hls]; simpa using hbd.2)]
 
 -- non-vacuity / sanity (kernel-evaluated)
 private def lit (s : String) : List Nat := s.toUTF8.toList.map (·.toNat)
